@@ -22,7 +22,7 @@ def process_part(ctx):
         ctx.cov["skipped"].append("process level: no usable scenario")
         return
     # every second scenario runs the server with -verbose: debug logging formats errors and their causes
-    sc = [{"id": i + 1, "replay": 3, "steps": b, "verbose": i % 2 == 0} for i, b in enumerate(pb)]
+    sc = [{"id": i + 1, "replay": 3, "steps": b, "verbose": i % 2 == 0, "burst": i % 2 == 1} for i, b in enumerate(pb)]
     tf = rl_common.run_process(ctx, sc, "proc-c18", timeout=1800)
     rl_common.judge(ctx, tf, "process level: real binary under reloads, bind faults and probes", "C18",
                     {"process-panic": "the server process panicked or exited"}, only={"process-panic"})
